@@ -282,7 +282,17 @@ impl SlabRouter {
                 in_index || in_metadata
             },
             KeyClass::Cache => self.cache.delete(key),
-            _ => self.metadata.delete(key).is_some(),
+            _ => {
+                // `put_durable` (like log replay) registers any key whose value
+                // carries an `_embedding` in the entity index. Take that
+                // registration out with the key, as replay of the delete does:
+                // `scan` merges the index and would keep listing the key.
+                if let Some(entity_id) = self.index.get(key) {
+                    self.embeddings.delete(entity_id);
+                    self.index.remove(key);
+                }
+                self.metadata.delete(key).is_some()
+            },
         };
         if removed {
             Ok(())
